@@ -90,6 +90,14 @@ public:
         buffer_.insert(buffer_.end(), begin, end);
     }
 
+    void Append(const Buffer& other) {
+        for (std::size_t i=0; i<other.current_bit_; i++) {
+            SetBit(get_bit(other.buffer_.begin(), i), current_bit_ + i);
+        }
+
+        current_bit_ += other.current_bit_;
+    }
+
     std::vector<uint8_t> GetData() const {
         return buffer_;
     }
